@@ -304,7 +304,7 @@ def run_history(ck, monitor, regime, s, comp, row=None, squeeze=0, mod=None, ext
     reject=(chunk index, kind): that chunk is first offered with an unusable optional argument; when the module
     rejects it (raises) the same chunk is then fed correctly."""
     m = build(s, row=row) if mod is None else mod
-    parts, a = [], 0
+    parts, kept, a = [], [], 0
     B = s.B if row is None else 1
     for ci, n in enumerate(comp):
         args, kw = call_args(s, a, a + n, row=row, squeeze=squeeze)
@@ -323,7 +323,13 @@ def run_history(ck, monitor, regime, s, comp, row=None, squeeze=0, mod=None, ext
             return None
         judge_cov(ck, s, regime, out, dict(extra or {}, composition=list(comp), chunk_start=a))
         parts.append(out)
+        kept.append({k_: (v_.tensor() if isinstance(v_, pp.LieTensor) else v_).detach().clone() for k_, v_ in out.items() if v_ is not None})
         a += n
+    # what earlier chunks returned is the caller's: feeding later chunks must not have changed it
+    for ci, (out_, kept_) in enumerate(zip(parts, kept)):
+        same = all(torch.equal((out_[k_].tensor() if isinstance(out_[k_], pp.LieTensor) else out_[k_]).detach(), v_) for k_, v_ in kept_.items())
+        ck.check(same, monitor, regime, "IMUPreintegrator.forward", "earlier_output_changed_by_a_later_call",
+                 lambda: wit_of(s, dict(extra or {}, composition=list(comp), chunk=ci)))
     return {"rot": lie.lt("SO3", torch.cat([p["rot"].tensor() for p in parts], 1), s.dtype),
             "vel": torch.cat([p["vel"] for p in parts], 1), "pos": torch.cat([p["pos"] for p in parts], 1)}
 
